@@ -33,3 +33,19 @@ CHECKS.update({
 })
 for k in ("C03","C06","C08"):
     PENDING.pop(k, None)
+
+CHECKS.update({
+ "C04": ("exploration", "panic monitor (recover around every call + crash trace of the worker process) over hostile inputs",
+         "Byte strings of length 0..2048 into every decoding entry point for all registered message types, every operation with replies of arbitrary length/content through the in-memory driver with each result rendered via String/fmt/JSON (also field by field), the listener with arbitrary buffers and a shutdown while the event callback is busy, hostile arguments (nil maps/IPs, extreme times, out-of-range enums).",
+         "only panics are judged; sampling, not enumeration", "§4 C04"),
+ "C09": ("fault_enumeration", "timing + resource-conservation monitor: /proc socket census, goroutine census, farm-measured reply times",
+         "Every path x network behaviour one call at a time (return time bounds, success iff an acceptable reply was measurably sent in time, zero library sockets the moment the call returns, library goroutines gone within 1 s), stray floods that outlast the deadline, calls queued on a fixed bind port served in turn, then parallel leak batches with listener start/stop cycles and a socket/goroutine census before/after with the GC off; one batch under -race.",
+         "time is the property: 1.5 s late-side slack, measured premises, second attempt in the parallel phase", "§4 C09"),
+ "C10": ("exploration", "offline checker over the listener's callback log vs. the senders' log (exactly-once, order, content, conservation of error callbacks)",
+         "Start/stop cycles of the real listener on loopback with 1-4 acknowledgement-paced senders mixing valid events and every malformed class, slow consumers, stops mid-stream, 1500 (quick) rapid start/stop/re-bind cycles; per-datagram three-valued verdict from the reference decoder; DST zones as process zone; one batch under -race.",
+         "kernel drops detected via RcvbufErrors make a loss inconclusive", "§4 C10"),
+ "C11": ("exploration", "reply-list monitor: ordered comparison of GetDevices results with the reference decoding of what was sent (hooked layer + loopback farm with several sockets and deadlines)",
+         "Random reply lists (valid, duplicates, malformed classes) through the in-memory driver (20k quick / 400k thorough discoveries per batch) and over real broadcast sockets with measured send times (must / grey / late), configured names and ports; one batch under -race.",
+         "grey zone 0.6T..T+0.3s is don't-care", "§4 C11"),
+})
+PENDING.clear()
